@@ -3,7 +3,7 @@
    Store typing Σ : cell ↦ dynamic type; every expression of static type t
    evaluates to a cell of dynamic type t; no run ends in EInternal/EHostCrash. *)
 From Coq Require Import ZArith NArith PArith List String Bool Floats FMapPositive Lia.
-From EvyV Require Import Base Num Ast Omap Sem Static.
+From EvyV Require Import Base Num Ast Omap OmapProofs Sem Static.
 Import ListNotations.
 Open Scope Z_scope.
 
@@ -49,13 +49,58 @@ Inductive cell_ok (S : sty) : hval -> ty -> Prop :=
 | CAny u i : ty_s1in u = true -> sfind S i = Some u -> cell_ok S (HAny u i) TAny
 | CArr u els : Forall (fun i => sfind S i = Some u) els -> cell_ok S (HArr els) (TArr u)
 | CEmpty : cell_ok S (HArr []) TEmptyArr
+| CMap u m : Inv m -> Forall (fun kv => sfind S (snd kv) = Some u) (pairs m) -> cell_ok S (HMap m) (TMap u)
+| CEmptyMap m : pairs m = [] -> order m = [] -> cell_ok S (HMap m) TEmptyMap
 | CNone : cell_ok S HNone TNone.
 
 Lemma cell_ok_ext S S' v t : ext S S' -> cell_ok S v t -> cell_ok S' v t.
 Proof.
-  intros E H; inversion H; subst; constructor; auto.
-  eapply Forall_impl; [|eassumption]. cbv beta; auto.
+  intros E H; inversion H; subst; constructor; auto;
+    (eapply Forall_impl; [|eassumption]); cbv beta; auto.
 Qed.
+
+(* maps: entries of a well-formed mapVal *)
+Lemma plookup_In {V} k (p : list (str * V)) v : plookup k p = Some v -> In (k, v) p.
+Proof.
+  induction p as [|[k' v'] p IH]; simpl; [discriminate|].
+  destruct (str_eqb k' k) eqn:E.
+  - apply str_eqb_eq in E; subst. intros H; inversion H; auto.
+  - auto.
+Qed.
+
+Lemma map_entry_typed (S : sty) u (m : omap loc) k i :
+  Forall (fun kv => sfind S (snd kv) = Some u) (pairs m) -> plookup k (pairs m) = Some i -> sfind S i = Some u.
+Proof. intros HF H. apply plookup_In in H. rewrite Forall_forall in HF. exact (HF _ H). Qed.
+
+Lemma map_order_has {V} (m : omap V) k : Inv m -> In k (order m) -> exists i, plookup k (pairs m) = Some i.
+Proof.
+  intros (_ & _ & H) Hk. apply H in Hk. apply plookup_In_keys in Hk.
+  destruct (plookup k (pairs m)); [eauto|congruence].
+Qed.
+
+Lemma Inv_oset {V} k (v : V) m : Inv m -> Inv (oset k v m).
+Proof. intros H. exact (proj1 (set_R m (abs m) k v (conj H eq_refl))). Qed.
+
+Lemma Inv_odel {V} k (m : omap V) : Inv m -> Inv (odel k m).
+Proof. intros H. exact (proj1 (del_R m (abs m) k (conj H eq_refl))). Qed.
+
+Lemma Inv_oempty {V} : Inv (@oempty V).
+Proof. exact (proj1 R_empty). Qed.
+
+Lemma Forall_premove {V} (P : str * V -> Prop) k p : Forall P p -> Forall P (premove k p).
+Proof.
+  induction 1 as [|[k' v'] p Hx Hp IH]; simpl; [constructor|].
+  destruct (str_eqb k' k); auto.
+Qed.
+
+Lemma Forall_pset {V} (P : str * V -> Prop) k v p : P (k, v) -> Forall P p -> Forall P (pset k v p).
+Proof. intros H1 H2. Transparent pset. unfold pset. Opaque pset. constructor; auto using Forall_premove. Qed.
+
+Lemma pairs_oset {V} k (v : V) m : pairs (oset k v m) = pset k v (pairs m).
+Proof. unfold oset. destruct (plookup k (pairs m)); reflexivity. Qed.
+
+Lemma pairs_odel_Forall {V} (P : str * V -> Prop) k m : Forall P (pairs m) -> Forall P (pairs (odel k m)).
+Proof. unfold odel. destruct (plookup k (pairs m)); simpl; auto using Forall_premove. Qed.
 
 Record heap_ok (S : sty) (h : heap) : Prop := {
   ho_cells : forall l t, sfind S l = Some t -> exists v, hget h l = Some v /\ cell_ok S v t;
@@ -229,6 +274,8 @@ Proof.
     hdone S'.
   - apply wp_ret. hdone S.
   - apply wp_ret. hdone S.
+  - apply wp_ret. hdone S.
+  - apply wp_ret. hdone S.
   - congruence.
 Qed.
 
@@ -288,6 +335,14 @@ Proof.
     destruct Hd as [[Hx _]|[[Hx|Hx] Hy]]; try discriminate.
     right; split; [left; exact Hx|]. simpl in Hy. lia.
   - reflexivity.
+  - (* map *)
+    wbind ltac:(apply mapM_pure). 2:{ intros; subst; reflexivity. }
+    intros k Hk.
+    match goal with HI : Inv m |- _ => destruct (map_order_has m k HI Hk) as (i & Hi) end. rewrite Hi.
+    wbind ltac:(eapply IH; eauto using map_entry_typed). 2:{ intros; subst; reflexivity. }
+    destruct Hd as [[Hx _]|[[Hx|Hx] Hy]]; try discriminate.
+    right; split; [left; exact Hx|]. simpl in Hy. lia.
+  - match goal with Ho : order m = [] |- _ => rewrite Ho end. reflexivity.
   - reflexivity.
 Qed.
 
@@ -313,6 +368,27 @@ Section EqGo.
     destruct e; [|reflexivity]. apply IH. intros; apply H; right; assumption.
   Qed.
 End EqGo.
+
+Section EqMapGo.
+  Context (eqf : loc -> loc -> M bool) (s : state) (p2 : list (str * loc)).
+  Lemma eq_mgo_pure : forall ps,
+    (forall k i j, In (k, i) ps -> plookup k p2 = Some j -> wp (eqf i j s) (fun _ s' => s' = s)) ->
+    wp ((fix go (ps : list (str * loc)) : M bool :=
+           match ps with
+           | [] => ret true
+           | (k, i) :: t =>
+               match plookup k p2 with
+               | None => ret false
+               | Some j => let* e := eqf i j in if e then go t else ret false
+               end
+           end) ps s) (fun _ s' => s' = s).
+  Proof.
+    induction ps as [|[k i] ps IH]; intros H; [reflexivity|].
+    destruct (plookup k p2) as [j|] eqn:Ej; [|reflexivity].
+    wbind ltac:(eapply H; [left; reflexivity|exact Ej]). intros e s1 ->.
+    destruct e; [|reflexivity]. apply IH. intros; eapply H; eauto. right; assumption.
+  Qed.
+End EqMapGo.
 
 Lemma equals_wp d : forall S s a b ta tb,
   heap_ok S (st_heap s) -> sfind S a = Some ta -> sfind S b = Some tb ->
@@ -347,6 +423,25 @@ Proof.
     apply eq_go_pure. intros x y Hx [].
   - (* empty / arr *)
     destruct (negb (Nat.eqb (List.length (@nil loc)) (List.length els))); reflexivity.
+  - (* map / map *)
+    match goal with |- context [if ?c then _ else _] => destruct c; [reflexivity|] end.
+    apply eq_mgo_pure. intros k i j Hin Hj.
+    destruct Hda as [[Hx0 _]|[[Hx0|Hx0] Hx1]]; try discriminate.
+    destruct Hdb as [[Hy0 _]|[[Hy0|Hy0] Hy1]]; try discriminate.
+    simpl in *.
+    match goal with HF : Forall _ (pairs m) |- _ => rewrite Forall_forall in HF; pose proof (HF _ Hin) as Hti end.
+    simpl in Hti.
+    eapply IH; eauto using map_entry_typed; right; (split; [left; assumption|lia]).
+  - (* map / empty map *)
+    match goal with |- context [if ?c then _ else _] => destruct c; [reflexivity|] end.
+    apply eq_mgo_pure. intros k i j Hin Hj.
+    match goal with Hp : pairs m0 = [] |- _ => rewrite Hp in Hj end. discriminate.
+  - (* empty map / map *)
+    match goal with |- context [if ?c then _ else _] => destruct c; [reflexivity|] end.
+    match goal with Hp : pairs m = [] |- _ => rewrite Hp end. reflexivity.
+  - (* empty map / empty map *)
+    match goal with |- context [if ?c then _ else _] => destruct c; [reflexivity|] end.
+    match goal with Hp : pairs m = [] |- _ => rewrite Hp end. reflexivity.
 Qed.
 
 Lemma deep_copy_wp d : forall S s l t,
@@ -375,6 +470,36 @@ Proof.
     hdone S'.
   - cbn [mapM]. unfold bindM at 1. cbn [ret].
     eapply wp_mono; [eapply alloc_wp with (t := TEmptyArr); eauto; constructor|].
+    cbv beta. intros l' s' (S' & E & H1 & H2 & H3).
+    exists S'; auto.
+  - (* map *)
+    simpl in Ht, Hd.
+    match goal with HI : Inv m, HF : Forall _ (pairs m) |- _ => rename HI into HInv; rename HF into HFm end.
+    wbind ltac:(eapply (mapM_wp
+        (fun k => match plookup k (pairs m) with
+                  | Some i => let* i' := deep_copy d i in ret (k, i')
+                  | None => crash "nil map entry"
+                  end)
+        (fun S k => exists i, plookup k (pairs m) = Some i /\ sfind S i = Some u)
+        (fun S k kv => fst kv = k /\ sfind S (snd kv) = Some u) (st_globals s)); eauto).
+    + intros S1 S2 k E12 (i & H1 & H2). eauto.
+    + intros S1 S2 k kv E12 [H1 H2]. auto.
+    + intros S0 s0 k Hh0 Hg0 (i & Hi & Hti). rewrite Hi.
+      wbind ltac:(eapply (IH S0 s0 i u); eauto; lia).
+      intros i' s1 (S1 & E1 & Hh1 & Hg1 & Hi1). apply wp_ret. hdone S1.
+    + rewrite Forall_forall. intros k Hk. destruct (map_order_has m k HInv Hk) as (i & Hi).
+      eauto using map_entry_typed.
+    + intros ps s1 (S1 & E1 & Hh1 & Hg1 & Hr1).
+      assert (Hk : map fst ps = order m /\ Forall (fun kv => sfind S1 (snd kv) = Some u) ps).
+      { clear -Hr1. induction Hr1 as [|k kv o ps [H1 H2] _ [I1 I2]]; simpl; [auto|]. split; [congruence|auto]. }
+      destruct Hk as [Hk1 Hk2].
+      eapply wp_mono; [eapply alloc_wp with (t := TMap u) (S := S1); eauto|].
+      { constructor; simpl; auto. destruct HInv as (N1 & _ & _).
+        unfold Inv, keys; simpl. rewrite Hk1. repeat split; auto. }
+      cbv beta. intros l' s' (S' & E & H1 & H2 & H3). hdone S'.
+  - match goal with Ho : order m = [] |- _ => rewrite Ho end.
+    cbn [mapM]. unfold bindM at 1. cbn [ret].
+    eapply wp_mono; [eapply alloc_wp with (t := TEmptyMap); eauto; constructor; auto|].
     cbv beta. intros l' s' (S' & E & H1 & H2 & H3).
     exists S'; auto.
 Qed.
@@ -653,6 +778,30 @@ Lemma ety_ESlice F G t l lo hi : ety F G (ESlice t l lo hi) =
       end.
 Proof. reflexivity. Qed.
 
+Lemma ety_EMap F G t ps : ety F G (EMap t ps) =
+      match ps with
+      | [] => match t with
+              | TEmptyMap => Some t
+              | TMap _ => if ty_ann t then Some t else None
+              | _ => None end
+      | _ :: _ =>
+          match t, etyps F G ps with
+          | TMap u, Some ts =>
+              if forallb (ty_eqb u) ts && ty_ann t && keys_nodup (map fst ps) then Some t else None
+          | _, _ => None
+          end
+      end.
+Proof. reflexivity. Qed.
+
+Lemma s1_expr_EMap t ps : s1_expr (EMap t ps) = ty_s1in t && s1_pairs ps.
+Proof. reflexivity. Qed.
+
+Lemma keys_nodup_NoDup l : keys_nodup l = true -> NoDup l.
+Proof.
+  induction l as [|x l IH]; simpl; intros H; constructor; apply andb_true_iff in H as [H1 H2]; auto.
+  apply negb_true_iff in H1. intros Hin. apply mem_str_In in Hin. congruence.
+Qed.
+
 Lemma s1_expr_EArr t es : s1_expr (EArr t es) = ty_s1in t && s1_exprs es.
 Proof. reflexivity. Qed.
 Lemma s1_expr_ECall name t args : s1_expr (ECall name t args) = mem_str name s1_builtins && s1_exprs args.
@@ -920,6 +1069,24 @@ Proof.
   - (* len *)
     sig1 Hok HF. wbind ltac:(eapply unwrap_any_wp; eauto). intros v s1 ->.
     destruct v; try exact I; apply bpost_of_alloc_num; auto.
+  - (* has *)
+    unfold sig_args_ok in Hok; cbn [fs_var fs_params] in Hok.
+    apply args2 in Hok as (ta & tb & -> & Hok1 & Hok2).
+    apply arg_ok_basic in Hok2; [subst|discriminate|discriminate]. fa2 HF.
+    wbind ltac:(eapply load_wp; eauto). intros v s1 [-> Hc]. load_s.
+    destruct ta; simpl in Hok1; try discriminate; inversion Hc; subst; apply bpost_of_alloc_bool; auto.
+  - (* del *)
+    unfold sig_args_ok in Hok; cbn [fs_var fs_params] in Hok.
+    apply args2 in Hok as (ta & tb & -> & Hok1 & Hok2).
+    apply arg_ok_basic in Hok2; [subst|discriminate|discriminate]. fa2 HF.
+    wbind ltac:(eapply load_wp; eauto). intros v s1 [-> Hc]. load_s.
+    assert (Hc' : forall om ks, v = HMap om -> cell_ok S (HMap (odel ks om)) ta).
+    { intros om ks ->. inversion Hc; subst.
+      - constructor; auto using Inv_odel, pairs_odel_Forall.
+      - unfold odel. match goal with Hp : pairs om = [] |- _ => rewrite Hp end. simpl. constructor; auto. }
+    destruct ta; simpl in Hok1; try discriminate; inversion Hc; subst;
+      (wbind ltac:(eapply store_wp; eauto); intros _ s1 [Hh1 Hg1];
+       eapply none_val_bpost; eauto using ext_refl; split; auto; unfold full in *; rewrite Hg1; auto).
   - (* typeof *)
     sig1 Hok HF. wbind ltac:(eapply load_wp; eauto). intros v s1 [-> Hc]. inversion Hc; subst.
     apply bpost_of_alloc_str; auto.
@@ -1056,7 +1223,8 @@ Definition rg_ok (S : sty) (named : option ty) (rg : ranger) : Prop :=
   | RgArr a _ => (exists u, sfind S a = Some (TArr u) /\ (named = None \/ named = Some u))
                  \/ sfind S a = Some TEmptyArr
   | RgStr _ _ => named = None \/ named = Some TStr
-  | RgMap _ _ => False
+  | RgMap m _ => ((exists u, sfind S m = Some (TMap u)) \/ sfind S m = Some TEmptyMap)
+                 /\ (named = None \/ named = Some TStr)
   end.
 
 Definition for_frame (named : option ty) (var : str) (fr0 : sframe) : Prop :=
@@ -1088,9 +1256,8 @@ Proof. intros. exists S; auto using ext_refl. Qed.
 Lemma assert_shape u t :
   ty_s1in u = true -> ty_proper t = true -> ty_eqb (ty_shape u) (ty_shape t) = true -> u = t.
 Proof.
-  revert t; induction u; intros t Hu Ht H; destruct t; simpl in *; try discriminate; auto.
-  - f_equal; auto.
-  - destruct t; simpl in *; discriminate.
+  revert t; induction u; intros t Hu Ht H; destruct t; simpl in *; try discriminate; auto;
+    try (f_equal; auto; fail); destruct t; simpl in *; discriminate.
 Qed.
 
 (* ---------- binary operators ---------- *)
@@ -1253,6 +1420,8 @@ Proof.
     - destruct op; simpl in Hbin; congruence.
     - eapply bin_arr_wp; eauto.
     - eapply bin_arr_wp; eauto.
+    - destruct op; simpl in Hbin; congruence.
+    - destruct op; simpl in Hbin; congruence.
     - destruct op; simpl in Hbin; congruence. }
   destruct op; try (apply OTHER; discriminate).
   - exact (EQ false (or_introl eq_refl)).
@@ -1278,6 +1447,36 @@ Section ExprStep.
       wbind ltac:(eapply IHe; eauto). intros l s1 (S1 & E1 & Hi1 & Hl1).
       apply wp_ret. exists S1; repeat split; auto; try apply Hi1. intros l0 H; inversion H; subst; auto.
     - apply wp_ret. exists S; repeat split; auto using ext_refl; try apply Hi. discriminate.
+  Qed.
+
+  Lemma emap_go_wp P e G u :
+    genv_ok G -> u <> TNone ->
+    forall ps ts s S,
+      etyps (p_funcs P) G ps = Some ts -> forallb (ty_eqb u) ts = true -> s1_pairs ps = true -> inv S G e s ->
+      wp ((fix go (ps : list (str * expr)) : M (list (str * loc)) :=
+             match ps with
+             | [] => ret []
+             | (k, a) :: t0 =>
+                 let* l := eval_expr f P e a in
+                 let* c := copy_or_ref value_depth l in
+                 let* r := go t0 in ret ((k, c) :: r)
+             end) ps s)
+         (fun vals s' => exists S', ext S S' /\ inv S' G e s' /\ map fst vals = map fst ps /\
+                                    Forall (fun kv => sfind S' (snd kv) = Some u) vals).
+  Proof.
+    intros HG Hu. induction ps as [|[k a] ps IHp]; intros ts s S Hty Hall Hs1 Hi.
+    - apply wp_ret. exists S; split; [apply ext_refl|split; [exact Hi|split; [reflexivity|constructor]]].
+    - cbn [etyps] in Hty. cbn [s1_pairs] in Hs1. apply andb_true_iff in Hs1 as [Hs1a Hs1b].
+      destruct (ety (p_funcs P) G a) as [t|] eqn:Ea; [|discriminate].
+      destruct (etyps (p_funcs P) G ps) as [ts'|] eqn:Eps; inversion Hty; subst.
+      simpl in Hall. apply andb_true_iff in Hall as [Hall1 Hall2]. apply ty_eqb_eq in Hall1; subst t.
+      wbind ltac:(eapply IHe; eauto). intros l s1 (S1 & E1 & Hi1 & Hl1).
+      wbind ltac:(eapply copy_or_ref_wp; eauto; apply Hi1). intros c s2 (S2 & E2 & Hh2 & Hg2 & Hc).
+      assert (Hi2 : inv S2 G e s2) by (eapply inv_step; eauto).
+      wbind ltac:(eapply (IHp ts' s2 S2); eauto). intros r s3 (S3 & E3 & Hi3 & Hk3 & HF3).
+      apply wp_ret. exists S3; split; [eauto using ext_trans|split; [exact Hi3|split]].
+      + simpl. congruence.
+      + constructor; auto.
   Qed.
 
   Lemma expr_step : expr_sound (S f).
@@ -1325,7 +1524,28 @@ Section ExprStep.
         wbind ltac:(eapply IHes; eauto). intros ls s1 (S1 & E1 & Hi1 & HF).
         eapply alloc_epost; eauto using ty_ann_s1in_ok1.
         constructor. eapply Forall2_same_ty; eauto.
-    - (* EMap *) discriminate.
+    - (* EMap *)
+      rewrite ety_EMap in Hty. rewrite s1_expr_EMap in Hs1. apply andb_true_iff in Hs1 as [Hs1a Hs1b].
+      apply wp_depth_fuel.
+      destruct pairs as [|p0 ps0].
+      + cbn [bindM]. unfold bindM at 1. cbn [ret].
+        destruct t0; try discriminate.
+        * destruct (ty_ann (TMap t0)) eqn:Ea; inversion Hty; subst.
+          eapply alloc_epost; eauto using ty_ann_s1in_ok1, ext_refl. constructor; [apply Inv_oempty|constructor].
+        * inversion Hty; subst. eapply alloc_epost; eauto using ext_refl. constructor; reflexivity.
+      + destruct t0; try discriminate.
+        destruct (etyps (p_funcs P) G (p0 :: ps0)) as [ts|] eqn:Ets; [|discriminate].
+        destruct (forallb (ty_eqb t0) ts && ty_ann (TMap t0) && keys_nodup (map fst (p0 :: ps0))) eqn:Ea;
+          inversion Hty; subst.
+        apply andb_true_iff in Ea as [Ea Ea3]. apply andb_true_iff in Ea as [Ea1 Ea2].
+        assert (Hu : t0 <> TNone).
+        { apply ty_ann_value in Ea2. simpl in Ea2. auto using ty_value_not_none. }
+        wbind ltac:(eapply (emap_go_wp P e G t0 HG Hu (p0 :: ps0)); eauto).
+        intros vals s1 (S1 & E1 & Hi1 & Hk1 & HF1).
+        eapply alloc_epost; eauto using ty_ann_s1in_ok1.
+        constructor; simpl; auto.
+        apply keys_nodup_NoDup in Ea3.
+        unfold Inv, keys; simpl. rewrite Hk1. repeat split; auto.
     - (* ECall *)
       rewrite ety_ECall in Hty. rewrite s1_expr_ECall in Hs1. apply andb_true_iff in Hs1 as [Hs1a Hs1b].
       destruct (lookup_sig (p_funcs P) name) as [sg|] eqn:Esg; [|discriminate].
@@ -1387,8 +1607,14 @@ Section ExprStep.
         apply wp_ret. exists S2; split; [eauto using ext_trans|split; [exact Hi2|]].
         match goal with HF : Forall _ els |- _ => rewrite Forall_forall in HF; apply HF end.
         eapply nth_error_In; eauto.
-      + (* map: not a Stage-1 type *)
-        pose proof (ho_tys _ _ Hh2 _ _ (E2 _ _ Hla)) as Hbad. discriminate.
+      + (* map *)
+        destruct (ty_eqb ta t0 && ty_ann t0) eqn:Et; inversion Hty; subst.
+        apply andb_true_iff in Et as [Et1 Et2]. apply ty_eqb_eq in Et1; subst ta.
+        inversion Hva; subst.
+        wbind ltac:(eapply load_wp; eauto). intros vi s3 [-> Hvi]. inversion Hvi; subst.
+        unfold oget. destruct (plookup x (pairs m)) as [l|] eqn:El; [|exact I].
+        apply wp_ret. exists S2; split; [eauto using ext_trans|split; [exact Hi2|]].
+        eauto using map_entry_typed.
     - (* ESlice *)
       rewrite ety_ESlice in Hty. rewrite s1_expr_ESlice in Hs1.
       apply andb_true_iff in Hs1 as [Hs1 Hs1d]. apply andb_true_iff in Hs1 as [Hs1 Hs1c].
@@ -1416,7 +1642,16 @@ Section ExprStep.
         * eapply inv_step; eauto.
         * constructor; auto.
         * eapply ho_tys; [exact Hh3|]. eauto.
-    - (* EDot *) discriminate.
+    - (* EDot *)
+      cbn [ety] in Hty. cbn [s1_expr] in Hs1. apply andb_true_iff in Hs1 as [Hs1a Hs1b].
+      destruct (ety (p_funcs P) G x) as [ta|] eqn:Ea; [|discriminate].
+      destruct ta; try discriminate.
+      destruct (ty_eqb ta t0 && ty_ann t0) eqn:Et; inversion Hty; subst.
+      apply andb_true_iff in Et as [Et1 Et2]. apply ty_eqb_eq in Et1; subst ta.
+      wbind ltac:(eapply IHe; eauto). intros la s1 (S1 & E1 & Hi1 & Hla).
+      wbind ltac:(eapply load_wp; eauto; apply Hi1). intros va s2 [-> Hva]. inversion Hva; subst.
+      unfold oget. destruct (plookup key (pairs m)) as [l|] eqn:El; [|exact I].
+      apply wp_ret. exists S1; split; [auto|split; [exact Hi1|]]. eauto using map_entry_typed.
     - (* EGroup *) cbn [ety] in Hty. cbn [s1_expr] in Hs1. eapply IHe; eauto.
     - (* EAssert *)
       cbn [ety] in Hty. cbn [s1_expr] in Hs1. apply andb_true_iff in Hs1 as [Hs1a Hs1b].
@@ -1585,7 +1820,8 @@ Proof. unfold ty_decl. intros H E; subst; discriminate. Qed.
 Lemma rg_ok_ext S S' named rg : ext S S' -> rg_ok S named rg -> rg_ok S' named rg.
 Proof.
   intros E. destruct rg; simpl; auto.
-  intros [(u & H1 & H2)|H]; [left; eauto|right; auto].
+  - intros [(u & H1 & H2)|H]; [left; eauto|right; auto].
+  - intros [[(u & H1)|H] H2]; (split; [|exact H2]); [left; eauto|right; auto].
 Qed.
 
 (* ---------- blocks and loops ---------- *)
@@ -1714,7 +1950,21 @@ Section CtlStep.
         intros l s1 (S1 & E1 & Hi1 & Hl1). apply wp_ret. exists S1; split; [auto|split; [exact Hi1|]].
         split; [simpl; auto|]. intros vt Hvt. destruct Hrg as [H|H]; congruence.
       + apply wp_ret. exists S; auto using ext_refl.
-    - contradiction.
+    - destruct Hrg as [Hm Hn].
+      assert (Hm' : exists t, sfind S m = Some t /\ (t = TEmptyMap \/ exists u, t = TMap u)).
+      { destruct Hm as [(u & Hm)|Hm]; eauto. }
+      destruct Hm' as (tm & Hmt & Htm).
+      wbind ltac:(eapply load_wp with (S := S); eauto). intros v s1 [-> Hv].
+      assert (exists om, v = HMap om) as (om & ->).
+      { destruct Htm as [->|(u & ->)]; inversion Hv; subst; eauto. }
+      clear Hv. induction todo as [|k todo IHt].
+      + apply wp_ret. exists S; auto using ext_refl.
+      + destruct (ohas k om); [|exact IHt].
+        wbind ltac:(eapply (alloc_epost S S G e s (HStr k) TStr); eauto using ext_refl; constructor).
+        intros l s1 (S1 & E1 & Hi1 & Hl1). apply wp_ret. exists S1; split; [auto|split; [exact Hi1|]].
+        split.
+        * simpl. split; auto. destruct Hm as [(u & Hm)|Hm]; [left; eauto|right; auto].
+        * intros vt Hvt. destruct Hn as [H|H]; congruence.
   Qed.
 
   Lemma for_step : for_sound (S f).
@@ -1752,6 +2002,16 @@ Section CtlStep.
 End CtlStep.
 
 (* ---------- single statements ---------- *)
+Lemma map_set_key_wp S s m k v u :
+  heap_ok S (st_heap s) -> sfind S m = Some (TMap u) -> sfind S v = Some u ->
+  wp (map_set_key m k v s) (fun _ s' => heap_ok S (st_heap s') /\ st_globals s' = st_globals s).
+Proof.
+  intros Hh Hm Hv. unfold map_set_key.
+  wbind ltac:(eapply load_wp; eauto). intros mv s1 [-> Hc]. inversion Hc; subst.
+  eapply store_wp; eauto. constructor; auto using Inv_oset.
+  rewrite pairs_oset. apply Forall_pset; auto.
+Qed.
+
 Section StmtStep.
   Context (f : nat) (IH : all_sound f).
   Let IHe : expr_sound f := proj1 IH.
@@ -1853,6 +2113,9 @@ Section StmtStep.
       intros l s' (S' & E & H1 & H2 & H3). hdone S'.
     - eapply wp_mono; [eapply (alloc_wp S s (HArr []) (TArr vt)); eauto; constructor; constructor|]. cbv beta.
       intros l s' (S' & E & H1 & H2 & H3). hdone S'.
+    - eapply wp_mono; [eapply (alloc_wp S s (HMap oempty) (TMap vt)); eauto; constructor;
+                       [apply Inv_oempty|constructor]|]. cbv beta.
+      intros l s' (S' & E & H1 & H2 & H3). hdone S'.
   Qed.
 
   Lemma bind_loopvar S G e s var vt (m : M loc) :
@@ -1923,6 +2186,10 @@ Section StmtStep.
           destruct (ety (p_funcs P) G' target1) as [[]|]; try discriminate;
           destruct (ety (p_funcs P) G' target2) as [[]|]; try discriminate;
           match type of Etg with (if ?c then _ else _) = _ => destruct c eqn:Ec; inversion Etg; subst end;
+          apply andb_true_iff in Ec as [_ Ec]; auto using ty_value_not_none, ty_ann_value.
+        - cbn [ety] in Etg.
+          destruct (ety (p_funcs P) G' target) as [[]|]; try discriminate;
+          match type of Etg with (if ?c then _ else _) = _ => destruct c eqn:Ec; inversion Etg; subst end;
           apply andb_true_iff in Ec as [_ Ec]; auto using ty_value_not_none, ty_ann_value. }
       wbind ltac:(eapply IHe; eauto). intros v0 s1 (S1 & E1 & Hi1 & Hv0).
       apply wp_depth_fuel.
@@ -1962,8 +2229,29 @@ Section StmtStep.
           intros _ s5 [Hh5 Hg5]. apply wp_ret.
           eapply (spost_same S S4); eauto using ext_trans.
           split; auto. unfold full in *. rewrite Hg5. auto.
-        * (* map: not a Stage-1 type *)
-          pose proof (ho_tys _ _ Hh4 _ _ (E4 _ _ Hla)) as Hbad. discriminate.
+        * (* map entry *)
+          destruct ti; try discriminate.
+          match type of Etg with (if ?c then _ else _) = _ => destruct c eqn:Ec; inversion Etg; subst end.
+          apply andb_true_iff in Ec as [Ec1 Ec2]. apply ty_eqb_eq in Ec1; subst ta.
+          inversion Hva; subst.
+          wbind ltac:(eapply load_str_wp; eauto). intros ks s5 ->.
+          wbind ltac:(eapply (map_set_key_wp S4 s4 la ks v tg); eauto).
+          intros _ s5 [Hh5 Hg5]. apply wp_ret.
+          eapply (spost_same S S4); eauto using ext_trans.
+          split; auto. unfold full in *. rewrite Hg5. auto.
+      + (* map field *)
+        cbn [ety] in Etg. cbn [s1_expr] in Hs1a. apply andb_true_iff in Hs1a as [Hs1a1 Hs1a2].
+        destruct (ety (p_funcs P) G' target) as [ta|] eqn:Ea; [|discriminate].
+        destruct ta; try discriminate.
+        match type of Etg with (if ?c then _ else _) = _ => destruct c eqn:Ec; inversion Etg; subst end.
+        apply andb_true_iff in Ec as [Ec1 Ec2]. apply ty_eqb_eq in Ec1; subst ta.
+        wbind ltac:(eapply (IHe P e target G' (TMap tg) S2); eauto). intros la s3 (S3 & E3 & Hi3 & Hla).
+        pose proof Hi3 as [Hh3 He3].
+        wbind ltac:(eapply load_wp; [exact Hh3|]; eauto). intros va s4 [-> Hva]. inversion Hva; subst.
+        wbind ltac:(eapply (map_set_key_wp S3 s3 la key v tg); eauto).
+        intros _ s4 [Hh4 Hg4]. apply wp_ret.
+        eapply (spost_same S S3); eauto using ext_trans.
+        split; auto. unfold full in *. rewrite Hg4. auto.
     - (* SCallStmt *)
       cbn [wt_stmt] in Hwt. rewrite s1_stmt_SCallStmt in Hs1. apply andb_true_iff in Hs1 as [Hs1a Hs1b].
       unfold call_ty in Hwt.
@@ -2043,7 +2331,7 @@ Section StmtStep.
             wbind ltac:(eapply (bind_loopvar S1 G e s1 var vt); eauto).
             { intros v Hv0. destruct (Hvar v Hv0) as (Hb & -> & _). split; auto.
               eapply wp_mono; [eapply alloc_wp; [apply Hi1|constructor|reflexivity]|]. cbv beta.
-              intros l0 s' (S' & E & H1 & H2 & H3). hdone S'. }
+              intros l0 s' (S' & E & Hx1 & Hx2 & Hx3). hdone S'. }
             intros e2 s4 (S4 & E4 & Hi4 & Hl4). apply wp_ret. exists S4. simpl.
             split; [eauto using ext_trans|]. split; [exact Hi4|]. split; auto.
             unfold named. destruct var as [v|]; auto. destruct (Hvar v eq_refl) as (_ & -> & _); auto.
@@ -2055,12 +2343,30 @@ Section StmtStep.
             split; [eauto using ext_trans|]. split; [exact Hi4|]. split; auto.
             left. exists t. split; [auto|].
             unfold named. destruct var as [v|]; auto. destruct (Hvar v eq_refl) as (_ & -> & _); auto.
+          + (* map *)
+            wbind ltac:(eapply (bind_loopvar S1 G e s1 var vt); eauto).
+            { intros v Hv0. destruct (Hvar v Hv0) as (Hb & -> & _). split; auto.
+              eapply wp_mono; [eapply alloc_wp; [apply Hi1|constructor|reflexivity]|]. cbv beta.
+              intros l0 s' (S' & E & Hx1 & Hx2 & Hx3). hdone S'. }
+            intros e2 s4 (S4 & E4 & Hi4 & Hl4). apply wp_ret. exists S4. simpl.
+            split; [eauto using ext_trans|]. split; [exact Hi4|]. split; auto.
+            split; [left; eauto|].
+            unfold named. destruct var as [v|]; auto. destruct (Hvar v eq_refl) as (_ & -> & _); auto.
           + (* the untyped [] *)
             wbind ltac:(eapply (bind_loopvar S1 G e s1 var vt); eauto).
             { intros v Hv0. destruct (Hvar v Hv0) as (Hb & -> & Hd & Hs). split; auto.
               eapply zero_val_wp; eauto. }
             intros e2 s4 (S4 & E4 & Hi4 & Hl4). apply wp_ret. exists S4. simpl.
-            split; [eauto using ext_trans|]. split; [exact Hi4|]. split; auto. }
+            split; [eauto using ext_trans|]. split; [exact Hi4|]. split; auto.
+          + (* map, untyped {} *)
+            wbind ltac:(eapply (bind_loopvar S1 G e s1 var vt); eauto).
+            { intros v Hv0. destruct (Hvar v Hv0) as (Hb & -> & _). split; auto.
+              eapply wp_mono; [eapply alloc_wp; [apply Hi1|constructor|reflexivity]|]. cbv beta.
+              intros l0 s' (S' & E & Hx1 & Hx2 & Hx3). hdone S'. }
+            intros e2 s4 (S4 & E4 & Hi4 & Hl4). apply wp_ret. exists S4. simpl.
+            split; [eauto using ext_trans|]. split; [exact Hi4|]. split; auto.
+            split; [right; eauto|].
+            unfold named. destruct var as [v|]; auto. destruct (Hvar v eq_refl) as (_ & -> & _); auto. }
       cbv beta. intros [rg e2] s1 (S1 & E1 & Hi1 & Hrg & Hl1). simpl in *.
       wbind ltac:(eapply (IHfor P ret e2 vname rg body G fr0 named Gb S1); eauto).
       intros [sig e3] s2 (S2 & E2 & [Hh2 He2] & Hl2). simpl in *. apply wp_ret.
